@@ -70,6 +70,15 @@ def plerec_mc(tier):
     return js
 
 
+def with_huge(jobsf, family, qshards, tshards):
+    """plus a few very large, very sparse operands (dimension >= 32768: the automatic table parameter reaches its cap there)"""
+    def f(tier, seed):
+        q = tier == 'quick'
+        return jobsf(tier, seed) + [TraceJob(SMALL, family, shards=qshards if q else tshards, args=['--cases', 1, '--extra', 'huge,nosweep', '--seed', seed + 77],
+                                             label='%s-huge@%s' % (family, SMALL), timeout=3400)]
+    return f
+
+
 def echelonpluq_mc(tier):
     """mzd_echelonize_pluq composed from the PLE/PLUQ and TRSM models (alg/EchelonPluq.tla): both pivot rules, one witness per branch on r"""
     js = [mcjob('MC_EchelonPluq', 'MC_EchelonPluq', workers=8), mcjob('MC_EchelonPluq', 'MC_EchelonPluq_last', workers=8)]
@@ -518,10 +527,10 @@ PROPS = {
                              'random histories are sampled; generated histories are exhaustive up to the stated depth for the reduced-capacity build']),
     'C09': dict(level='model_checking', reasons=ALG_REASONS | {'padding'}, jobs=views_jobs, mc=lambda tier: [mcjob('MC_MzdWords', c, workers=16, timeout=2400) for c in ('MC_MzdWords_c08_w3', 'MC_MzdWords_c13_w3')] + words2_mc(tier, ('cl',), wit=True), assumptions=GEN_ASSUME + [
         'window placements are sampled from the classes row offset {0,1,5} x word offset {0,1,2,3} x parent wider by {0,1,17,64,65,130} columns x rows below or not']),
-    'C02': alg(simple_jobs('elim', 640), mc=lambda tier: gf2_mc(tier) + [mcjob('MC_Echelon', 'MC_Echelon_km%d' % km, workers=12) for km in (1, 2, 6)] + echelonpluq_mc(tier)),
+    'C02': alg(with_huge(simple_jobs('elim', 640), 'elim', 4, 8), mc=lambda tier: gf2_mc(tier) + [mcjob('MC_Echelon', 'MC_Echelon_km%d' % km, workers=12) for km in (1, 2, 6)] + echelonpluq_mc(tier)),
     'C03': alg(with_binding(simple_jobs('ple', 480, qshards=12), 'ple', 'tinyrec', 16, 64), mc=lambda tier: gf2_mc(tier) + [mcjob('MC_PLE', 'MC_PLE', workers=12), mcjob('MC_PLE', 'MC_PLE_tall', workers=12)] + plerec_mc(tier) + words2_mc(tier, ('cl',), wit=True)),
     'C04': alg(simple_jobs('trsm', 480), mc=lambda tier: gf2_mc(tier) + [mcjob('MC_TRSM', workers=12, timeout=1800)]),
-    'C05': alg(simple_jobs('inv', 320), mc=lambda tier: gf2_mc(tier) + [mcjob('MC_Solve', workers=12), mcjob('MC_Inv', 'MC_Inv_full', workers=8), mcjob('MC_Inv', 'MC_Inv_km1', workers=4),
+    'C05': alg(with_huge(simple_jobs('inv', 320), 'inv', 1, 1), mc=lambda tier: gf2_mc(tier) + [mcjob('MC_Solve', workers=12), mcjob('MC_Inv', 'MC_Inv_full', workers=8), mcjob('MC_Inv', 'MC_Inv_km1', workers=4),
                                                                               mcjob('MC_Inv', 'MC_Inv_wit_NoPadding', workers=2, witness=True)]),
     'C06': alg(simple_jobs('solve', 480), mc=lambda tier: gf2_mc(tier) + [mcjob('MC_Solve', workers=12), mcjob('MC_Solve', 'MC_Solve_wit_f03', workers=4, witness=True)]),
     'C07': alg(simple_jobs('kernel', 320), mc=lambda tier: gf2_mc(tier) + [mcjob('MC_Solve', workers=12)]),
